@@ -512,7 +512,33 @@ func (g callGen) fn(t *rapid.T, depth int) (*ast.Node, int) {
 }
 
 func (g callGen) program(t *rapid.T) *ast.Node {
-	switch rapid.IntRange(0, 5).Draw(t, "shape") {
+	switch rapid.IntRange(0, 7).Draw(t, "shape") {
+	case 6, 7: // a composed function extended in two or three different ways; all versions are then applied
+		one := func(tag string) *ast.Node {
+			return ast.VarN(rapid.SampledFrom([]string{"string", "uppercase", "lowercase", "trim", "length", "count", "reverse", "sum", "sort", "boolean", "type", "abs", "number"}).Draw(t, tag))
+		}
+		nb := rapid.IntRange(2, 5).Draw(t, "baseLen")
+		base := one("b0")
+		for i := 1; i < nb; i++ {
+			base = ast.N(ast.Chain, base, one("bi"))
+		}
+		block := []*ast.Node{assign("base", base)}
+		var calls []*ast.Node
+		arg := g.operand(t)
+		ne := rapid.IntRange(2, 3).Draw(t, "extensions")
+		for i := 0; i < ne; i++ {
+			name := []string{"x", "y", "z"}[i]
+			ext := ast.N(ast.Chain, ast.VarN("base"), one("ext"))
+			if rapid.IntRange(0, 3).Draw(t, "twice") == 0 {
+				ext = ast.N(ast.Chain, ext, one("ext2"))
+			}
+			block = append(block, assign(name, ext))
+			calls = append(calls, ast.CallE(ast.VarN(name), arg.Clone()))
+		}
+		calls = append(calls, ast.CallE(ast.VarN("base"), arg.Clone()))
+		// earlier extensions are applied after the later ones were built
+		block = append(block, ast.ArrN(calls...))
+		return ast.BlockN(block...)
 	case 0, 1: // chain of length 1..4: v ~> f1 ~> f2(...) ...
 		e := g.operand(t)
 		if rapid.IntRange(0, 5).Draw(t, "fnHead") == 0 {
